@@ -66,7 +66,8 @@ def cmd_check(prop, tier, seed):
         print(f"VIOLATION property={prop} replay={path}")
         print(f"  oracle={h['sig']['oracle']} features={json.dumps(h['sig']['features'], sort_keys=True)}")
         print(f"  {h['hit']['msg']}")
-        vio_out.append({"signature": h["sig"], "replay": path, "msg": h["hit"]["msg"]})
+        vio_out.append({"signature": h["sig"], "replay": path, "msg": h["hit"]["msg"],
+                        "violating_hits_in_this_run": tot["sig_counts"].get(k, 1)})
         rc = 1
     if len(violations) > 8:
         print(f"  ... and {len(violations) - 8} further distinct violation signatures not minimised:")
@@ -74,6 +75,9 @@ def cmd_check(prop, tier, seed):
             print(f"  - {h['sig']['oracle']} {json.dumps(h['sig']['features'], sort_keys=True)} :: {h['hit']['msg'][:160]}")
     for line in sorted(set(known_lines)):
         print(line)
+    if violations:
+        print(f"  violating hits in this run: {sum(tot['sig_counts'].get(runner.sig_key(h['sig']), 1) for h in violations)} "
+              f"over {len(violations)} distinct signature(s)")
     wall = time.time() - t0
     ev_path = evidence.write(prop, tier, seed, plan, tot, wall, len(violations), vio_out,
                              sorted(set(known_lines)))
